@@ -114,7 +114,7 @@ pub fn k_c13_degree_and_leading_zeros() {
 pub fn k_c13_syn_div() {
     // p = q * (x - b) + r, r = p(b): the quotient is exact when b is a root
     let p = [any_tiny(), any_tiny(), any_tiny()];
-    let b = any_nonzero();
+    let b = any_tiny();
     let q = polynom::syn_div(&p, 1, b);
     // q has the same length with a zero top coefficient; multiply back
     let rem = ref_eval(&p, b);
